@@ -5,7 +5,7 @@ cd /verif
 ids="$@"; [ -z "$ids" ] && ids=$(ls seeded)
 for m in $ids; do
   d=seeded/$m
-  checks=$( [ -f $d/checks ] && cat $d/checks || echo "${m%%-*}" )
+  checks=$( [ -f $d/checks ] && cat $d/checks || jq -r '.property' $d/meta.json )
   if ! git -C /repo apply --check $PWD/$d/patch.diff 2>/dev/null; then echo "$m: patch does not apply"; continue; fi
   git -C /repo apply $PWD/$d/patch.diff
   for c in $checks; do
